@@ -622,7 +622,7 @@ package dbft
 //@   ensures [C11] @wf wf()
 //@   ensures [C11,C02,C04] @slot slot()
 //@   requires [C03] @said said()
-//@   ensures [C03] @said said()
+//@   ensures [C03,C07] @said said()
 //@   ensures [C03] @lock implies(old(gPreCommit) != nil, gPreCommit == old(gPreCommit))
 //@   ensures gBroadcasts >= old(gBroadcasts)
 //@   requires [C02] @complete complete()
